@@ -291,6 +291,67 @@ def obligations(tier):
 
     # 6. wiring (CrossHair): every constructor stores bins(start, end, fmt='bed')
     out.extend(_wiring(tier))
+    # 7. the consumer: range queries on the real collection code with the EXACT bin semantics (bins() as z3 terms from source)
+    out.extend(_prefilter(tier))
+    return out
+
+
+def _prefilter(tier):
+    """'bin-based pre-filtering can never change the answer of a range query': a gene with two isoforms separated by a gap (the pre-filter looks at the
+    isoforms' bins, the answer is about the gene's span) plus a feature collection, symbolic coordinates and query, exact bins"""
+    from inscripta.biocantor.exc import InvalidQueryError
+    from inscripta.biocantor.gene.collections import AnnotationCollection
+    from inscripta.biocantor.gene.feature import FeatureInterval, FeatureIntervalCollection
+    from inscripta.biocantor.gene.gene import GeneInterval
+    from inscripta.biocantor.gene.transcript import TranscriptInterval
+
+    from harness.common import AND, PLUS
+    from vlib.sym import IFF
+
+    def qfn(within, with_fc=True):
+        def fn(s0, l0, g, l1, fs, fl, hi, qs, qe):
+            t1 = TranscriptInterval([s0], [s0 + l0], PLUS, guid=601)
+            t2 = TranscriptInterval([s0 + l0 + g], [s0 + l0 + g + l1], PLUS, guid=602)
+            gene = GeneInterval([t1, t2], guid=701)
+            spans = {701: (s0, s0 + l0 + g + l1)}
+            fcs = []
+            if with_fc:
+                fcs = [FeatureIntervalCollection([FeatureInterval([fs], [fs + fl], PLUS, guid=603)], guid=702)]
+                spans[702] = (fs, fs + fl)
+            coll = AnnotationCollection(genes=[gene], feature_collections=fcs, sequence_name="chr1", start=0, end=hi)
+            try:
+                res = coll.query_by_position(qs, qe, completely_within=within)
+            except InvalidQueryError:
+                return False
+            got = [c.guid for c in res.iter_children()]
+            conds = []
+            for guid, (s, e) in spans.items():
+                conds.append(IFF(guid in got, AND(qs <= s, e <= qe) if within else AND(s < qe, qs < e)))
+            return AND(*conds)
+
+        return fn
+
+    out = []
+    pre = lambda s0, l0, g, l1, fs, fl, hi, qs, qe: (s0 >= 0 and l0 >= 1 and g >= 1 and l1 >= 1 and fs >= 0 and fl >= 1 and s0 + l0 + g + l1 <= hi  # noqa: E731
+                                                     and fs + fl <= hi and 0 <= qs and qs < qe and qe <= hi)
+    P = dict(s0=int, l0=int, g=int, l1=int, fs=int, fl=int, hi=int, qs=int, qe=int)
+    exs = [dict(s0=10, l0=5, g=20, l1=5, fs=3, fl=4, hi=100, qs=18, qe=30), dict(s0=131000, l0=50, g=400000, l1=50, fs=150200, fl=300, hi=900000, qs=150200, qe=150800)]
+    from vlib.obl import split_cubes
+
+    desc = ("AnnotationCollection.query_by_position on the real code with the exact semantics of bins(): a 2-isoform gene (gap between the isoforms)%s "
+            "returned exactly when the SPAN lies within (strict) / overlaps (relaxed) the query, whatever bins the isoforms occupy")
+    out.append(Obl("prefilter_exact_bins_relaxed", qfn(False), dict(P), pre, budget=900, cost=150, stubs=dict(bins="smt"), examples=exs,
+                   desc=desc % " and a feature collection are", bounds="1 gene with 2 single-exon isoforms + 1 feature collection, unbounded symbolic coordinates and query"))
+    # strict mode, gene only (quick and thorough); with the feature collection as second member in the thorough tier
+    o = Obl("prefilter_exact_bins_strict_gene", qfn(True, with_fc=False), dict(P),
+            lambda s0, l0, g, l1, fs, fl, hi, qs, qe: pre(s0, l0, g, l1, fs, fl, hi, qs, qe) and fs == 0 and fl == 1, budget=900, cost=120, stubs=dict(bins="smt"),
+            examples=[dict(e, fs=0, fl=1) for e in exs], desc=desc % " is", bounds="1 gene with 2 single-exon isoforms, unbounded symbolic coordinates and query")
+    out.extend(split_cubes(o, {"qs_le_gene": lambda **kw: kw["qs"] <= kw["s0"], "qe_ge_gene": lambda **kw: kw["qe"] >= kw["s0"] + kw["l0"] + kw["g"] + kw["l1"]}))
+    if tier != "quick":
+        o = Obl("prefilter_exact_bins_strict", qfn(True), dict(P), pre, budget=1800, cost=400, stubs=dict(bins="smt"), examples=exs,
+                desc=desc % " and a feature collection are", bounds="1 gene with 2 single-exon isoforms + 1 feature collection, unbounded symbolic coordinates and query")
+        out.extend(split_cubes(o, {"fc_first": lambda **kw: kw["fs"] < kw["s0"], "qs_le_gene": lambda **kw: kw["qs"] <= kw["s0"],
+                                   "qe_ge_gene": lambda **kw: kw["qe"] >= kw["s0"] + kw["l0"] + kw["g"] + kw["l1"]}))
     return out
 
 
